@@ -12,7 +12,8 @@ import (
 // executor): their clocks, random bytes, args, environment, stdio and file table are equal to each other and to the fixed
 // documented sequence, reading after reading.
 func VerifC18_DefaultContext() {
-	a, err := NewModuleConfig().(*moduleConfig).toSysContext()
+	shared := NewModuleConfig().(*moduleConfig) // one configuration value used for several instances, as embedders do
+	a, err := shared.toSysContext()
 	verifrt.Assert(err == nil, "default configuration builds a system context")
 	b, err2 := NewModuleConfig().(*moduleConfig).toSysContext()
 	if err != nil || err2 != nil {
@@ -37,6 +38,27 @@ func VerifC18_DefaultContext() {
 	verifrt.Assert(nA == 8 && nB == 8 && eA == nil && eB == nil, "random source yields bytes")
 	for i := range bufA {
 		verifrt.Assert(bufA[i] == bufB[i], "random bytes are the same deterministic sequence in every instance")
+	}
+	// an instance created later from the SAME configuration value, after earlier instances consumed readings, starts
+	// from the same values again (and so does one derived from it)
+	for which := 0; which < 2; which++ {
+		cfg := shared
+		if which == 1 {
+			cfg = shared.WithName("later").(*moduleConfig)
+		}
+		c, err3 := cfg.toSysContext()
+		verifrt.Assert(err3 == nil, "default configuration builds a system context again")
+		if err3 != nil {
+			return
+		}
+		bufC := make([]byte, 8)
+		nC, eC := c.RandSource().Read(bufC)
+		verifrt.Assert(nC == 8 && eC == nil, "random source yields bytes")
+		for i := range bufC {
+			verifrt.Assert(bufC[i] == bufA[i], "an instance created later from the same configuration starts from the same random bytes")
+		}
+		sc, nc := c.Walltime()
+		verifrt.Assert(sc == epochNanos/1e9 && int64(nc) == epochNanos%1e9 && c.Nanotime() == 0, "an instance created later from the same configuration starts its clocks from the same values")
 	}
 	// stdio: stdin is empty, output is discarded
 	in, ok := a.FS().LookupFile(0)
